@@ -13,6 +13,7 @@ import Driver.ParseStream
 import Driver.LeptondStream
 import Driver.NamesStream
 import Driver.LeptondLoopStream
+import Driver.DaemonStream
 open Driver
 
 def main (args : List String) : IO UInt32 := do
@@ -45,4 +46,6 @@ def main (args : List String) : IO UInt32 := do
   | ["mon", "names"] => runMon NamesStream.init NamesStream.monStep NamesStream.monFinish; return 0
   | ["model", "leptondloop"] => runModel LeptondLoopStream.init LeptondLoopStream.step; return 0
   | ["mon", "leptondloop"] => runMon LeptondLoopStream.init LeptondLoopStream.monStep LeptondLoopStream.monFinish; return 0
+  | ["model", "daemon"] => runModel DaemonStream.init DaemonStream.step; return 0
+  | ["mon", "daemon"] => runMon DaemonStream.init DaemonStream.monStep DaemonStream.monFinish; return 0
   | _ => IO.eprintln "usage: driver model|mon <stream>"; return 2
